@@ -16,6 +16,7 @@ PROP = {
              "for every combination of its Filter headers under a bound of 4*|processors|+16 processor executions per transaction. Non-trivial: the configuration contains a "
              "processor cycle, a rootless direction, a flow reference or an invalid quota field / dangling reference. distinct = canonical JSON of the configuration"),
     "assumptions": [
+        "unit TestValidatorService: the standalone validator is the service binary built from the repository's flows-validator package (with a generated module file: its own go.mod does not resolve the engine offline), started on a port of its own and asked over HTTP. Generated are sequences of 2-4 validation requests under one set-up id (or none): flows with and without a Limiter, quota files that are fine, invalid, or not Base64 (the service answers 500 while writing). The answer to a request must be the answer the same set gets under an id never used before (a verdict is a function of the submitted set, whatever was validated under the id before and however that ended), and a set the service accepts must be loaded by the engine's own loader",
         "unit TestHostileMessagesThroughHandler: the transaction arrives as an SPOE message through routing.Handler of a real HandlingDataManager that has loaded the fixed parsing configuration; generated is the message itself - which arguments it carries, their types (text for bytes, an integer for a text), the message name (request / response / full-request / full-response / unknown) and the text of the headers argument (absent, empty, white space only, a bare CRLF, lines without a colon, names in several letter cases and on several lines, NUL and non-UTF-8 bytes, lines of 9 kB). The SPOE library does not recover a panic of the handler, so a panic is a crash of the engine process; the handler's answer is not judged",
         "generated quota files include an internal limit that is wrong on its own under a parent that is fine (no strategy at all; a unit of its own that the engine does not know): such a file must be refused with an error",
         "the further filter constraints of a generated flow include shapes a hand-written file may well have: a condition written twice, two conditions of one key whose values are lists / maps, null and numeric values, repeated methods and status codes (the loader takes any YAML value; a value that is not a string matches nothing)",
@@ -32,6 +33,7 @@ PROP = {
         dict({"pkg": "c05", "test": "TestExportServerOutages", "quick": 600, "thorough": 12000, "shards": 8}, **_CRASH),
         dict({"pkg": "c05", "test": "TestHostileTransactions", "quick": 3000, "thorough": 60000, "shards": 16}, **_CRASH),
         dict({"pkg": "c05", "test": "TestHostileMessagesThroughHandler", "quick": 3000, "thorough": 60000, "shards": 1}, **_CRASH),
+        dict({"pkg": "c05", "test": "TestValidatorService", "quick": 150, "thorough": 2500, "shards": 1}, **_CRASH),
         dict({"pkg": "c05", "test": "FuzzHostileTransaction", "kind": "fuzz", "thorough": 90, "tiers": ["thorough"]}, **_CRASH),
         dict({"pkg": "c05", "test": "TestRegressionFixedDefects", "kind": "plain"}, **_CRASH),
     ],
